@@ -21,17 +21,20 @@ vlib.standard_check({
     "exe": "gv_c08",
     "harness": "c03",
     "streams": {
-        "quick": [[8000, "conc", 9], [2500, "concw", 9], [3000, "op", 6]],
-        "thorough": [[120000, "conc", 12], [30000, "concw", 12], [50000, "op", 8]],
+        "quick": [[8000, "conc", 9], [2500, "concw", 9], [2500, "seq", 7], [3000, "op", 6]],
+        "thorough": [[120000, "conc", 12], [30000, "concw", 12], [40000, "seq", 9], [50000, "op", 8]],
     },
-    "search": [[20000, "conc", 12], [5000, "concw", 12]],
+    "search": [[20000, "conc", 12], [5000, "concw", 12], [5000, "seq", 9]],
     "signature": signature,
     "eval_key": "ops",
     "nontrivial": lambda t: t.get("conc_pairs", 0),
     "rule": "expression DAGs (depth ≤ 6) over all modelled node kinds built through the real frontend, simulated un-postprocessed under an abstract "
             "stimulus (1..many undefined bits per pin) and 8–11 concretisations of it (2/3 full, 1/3 partial); every node value of every run is "
             "compared with evalNode (correspondence), every node/expression value of a concretised run is compared bit by bit with the abstract run "
-            "(a defined abstract bit contradicted = PROPFAIL). Non-trivial = (abstract, concretisation) run pairs.",
+            "(a defined abstract bit contradicted = PROPFAIL, reported at the node where it originates). Stream seq: the same with registers "
+            "(with/without reset value and enable, feedback) over 6 clock cycles, concretising also the undefined initial register contents; register "
+            "outputs are taken from the implementation, all combinational nodes are still recomputed by the model. "
+            "Non-trivial = (abstract, concretisation) run pairs (per cycle in seq).",
     "extra_cov": lambda t: {"node_kinds": t.get("node_kinds", {}), "operators": t.get("hist", {}), "bits_compared": t.get("compat_bits", 0),
                             "non_monotone_occurrences": t.get("non_monotone", 0), "non_monotone_where": t.get("non_monotone_where", {}),
                             "non_monotone_sources": t.get("non_monotone_sources", {})},
@@ -41,6 +44,7 @@ vlib.standard_check({
                   "refinement order; the multiplexer is proved compatible and monotone for in-range selectors), lifted by induction to combinational netlists; "
                   "corollary: a bit defined in the abstract run equals the bit of every concretisation. Model tied to the code by node-level differential "
                   "execution; the property is additionally checked directly on the implementation (abstract vs concretised runs of the same compiled program).",
-    "assumptions": ["registers, memories, pins with tristate, clocks: not modelled (combinational netlists only)",
+    "assumptions": ["theorems cover combinational netlists; registers are covered by the implementation-level check of stream seq only (no Lean model of "
+                    "Node_Register here, see C04), memories and tristate pins are not covered",
                     "nodes outside the model (External, vendor primitives, SignalGenerator callbacks)"],
 })
